@@ -43,6 +43,13 @@ def special_programs(rng):
     # several interrupt functions, each with callees of its own (every one is a root of the in-use set)
     out.append("unsigned char v0, v1;\nvoid ack1() { v0++; }\nvoid ack2() { v1++; }\nvoid ack3() { v0--; }\n"
                "void interrupt nmi() { ack1(); }\nvoid interrupt irq() { ack2(); }\nvoid interrupt brk() { ack3(); ack1(); }\nvoid main() { v0 = 1; }\n")
+    # the same local name declared again in sibling blocks, in nested blocks, in both arms of an if, in several
+    # functions (the generated names of locals depend on what was declared before them in the compilation)
+    out.append("char out;\nvoid main() {\n  { char i; i = 1; out = i; }\n  { char i; i = 2; out = i; }\n  { char i; i = 3; out = i; }\n}\n")
+    out.append("char out;\nvoid f() { { char i; i = 1; out = i; } { char i; char j; i = 2; j = i; out = j; } }\n"
+               "void g() { char i; i = 4; { char i; i = 5; out = i; } { char i; i = 6; out = i; } out = i; }\nvoid main() { f(); g(); f(); }\n")
+    out.append("char out, c;\nvoid main() { if (c) { char t; t = 1; out = t; } else { char t; t = 2; out = t; }\n"
+               "  while (c) { char t; t = c; c = 0; out = t; }\n  { short t; t = 300; out = t >> 8; } }\n")
     # errors (diagnostics must be deterministic too)
     out.append("char a;\nvoid main() { b = 1; }\n")
     out.append('char *p;\nvoid f(char *a, char *b) { p = a; }\nvoid main() { f("ab", "cd") }\n')
